@@ -124,7 +124,8 @@ K("target_n_trees_contract", ["C15"], OPF,
   clause="automatic tree count is zero")
 K("single_leaf_shortcut_contract", ["C15", "C01", "C06", "C07"], OPF,
   "clear_db_and_create_a_single_leaf leaves exactly Tree(0)=bucket(items) (or no tree key), metadata (name, dim, items, roots=[0]|[]), a version record; every other key untouched",
-  "store: 3 arbitrary entries (<= 12-byte values); all 64-bit item sets; dim 1..=65535", site="Writer::clear_db_and_create_a_single_leaf")
+  "store: 3 arbitrary entries (<= 12-byte values); all 64-bit item sets; dim 1..=65535", site="Writer::clear_db_and_create_a_single_leaf",
+  tier="thorough", timeout=1800)
 
 # ---------------------------------------------------------------- binary quantisation (C12)
 BQF = ["unaligned_vector.verif_bq.rs"]
@@ -165,6 +166,12 @@ MIRSYM("search_budget", ["C03"],
        "the budget nns_by_leaf works with equals search_k.unwrap_or(count (x) n_trees) (x) oversampling.unwrap_or(DEFAULT_OVERSAMPLING) with saturating products, and computing it never panics",
        "count, search_k, oversampling over the whole usize range; n_trees <= 2^32; DEFAULT_OVERSAMPLING 1..=16; dev (overflow checks on) and release (off) MIR",
        _lazy("e2_budget"))
+
+# ---------------------------------------------------------------- E2: tree steps (C01 C04 C15)
+_TREE_BOUNDS = "one tree, shapes {bucket; split(bucket|item, bucket|item)} (thorough: + depth 2), node ids concrete, item ids / bucket contents / zero-normal flags / side decisions symbolic over a 16-id universe, <= 6 stored items, 1..=2 new ids (thorough 3), split_after 1..=3; fresh node ids from the inlined ConcurrentNodeIds"
+MIRSYM("insert_items_step", ["C01", "C15", "C04"],
+       "insert_items_in_file from any pre-state satisfying Inv: afterwards the tree reaches exactly I u N, each item once, no dangling/orphan node; every over-full bucket is reported in large_descendants by node id and everything reported is a bucket",
+       _TREE_BOUNDS, _lazy("e2_tree", "insert_obligation"), site="Writer::insert_items_in_file")
 
 PROPS = {}
 
@@ -275,6 +282,17 @@ P("C03", "Any-budget, filtered search results are well-formed and budget-monoton
   bounds={"count/search_k/oversampling": "whole usize range", "trees": "<= 2^32"},
   outside_claim=["numeric accuracy of distances (C11)", "forests beyond the bounded family"],
   assumptions=["MIR dumped with overflow-checks on = dev profile, off = release profile"])
+P("C01", "Every tree of a built index covers exactly the live items, each once",
+  "symbolic execution of the rustc MIR of the recursive writer functions (z3 decides every path and assertion) from every pre-state of a bounded forest family satisfying the representation invariant; Kani for the single-bucket shortcut",
+  "Bounded symbolic execution: one step of each build-pipeline function from an arbitrary invariant-satisfying pre-state within the shape family; the composition over whole builds is a paper argument.",
+  level_note="Trusted: rustc MIR semantics, z3, the model table (bit-set bitmaps, store, TmpNodes as put/remove/remap lists, fresh side decisions), the invariant Inv and the step contracts of DESIGN.md section 3; the induction over histories is not machine-checked.",
+  stubs_and_models=["E2 model table (lib/mirsym/models.py, world.py)"],
+  functions_encoded=["Writer::insert_items_in_file", "Writer::fit_in_descendant", "ConcurrentNodeIds::new", "ConcurrentNodeIds::next",
+                     "randomly_split_children", "BuildOption::cancelled", "NodeId::tree/item"],
+  bounds={"forest": "1 tree, depth <= 2, <= 6 items", "universe": "16 ids", "split_after": "1..=3"},
+  outside_claim=["composition over build", "rayon (C13)", "batching with > 200 leaves (C14)", "real roaring/LMDB behaviour"],
+  assumptions=["Inv(F, I) as in DESIGN.md section 3"])
+claim("C01")
 claim("C03")
 claim("C12")
 claim("C15")
